@@ -23,9 +23,10 @@ var ErrLostOplogPosition = errors.New("lost oplog position")
 type Stream struct {
 	handle   Handle
 	last     bsonkit.Doc
+	floor    primitive.Timestamp
 	pipeline bsonkit.List
 	signal   chan struct{}
-	oplog    func() *bsonkit.Set
+	oplog    func() (*bsonkit.Set, primitive.Timestamp)
 	cancel   func()
 	event    bsonkit.Doc
 	token    interface{}
@@ -169,7 +170,17 @@ func (s *Stream) next(ctx context.Context, block bool) bool {
 		}
 
 		// get oplog
-		oplog := s.oplog()
+		oplog, discarded := s.oplog()
+
+		// a stream without a position has lost events if an event at or after
+		// the time it starts from has been discarded
+		if s.last == nil && !discarded.IsZero() && bsonkit.Compare(discarded, s.floor) >= 0 {
+			s.cancel()
+			s.closed = true
+			s.error = ErrLostOplogPosition
+			s.mutex.Unlock()
+			return false
+		}
 
 		// get index
 		index := -1
